@@ -11,6 +11,7 @@ Not decided: that every ill-scoped program reaches one of these sites.
 """
 from synq import (walk, show, show_stmts, strs, last_seg, pat_alts, pat_head, tail_expr, matches_of, mcalls, calls,
                   macros, lit_val, AnchorMissing, walk_no_closure)
+import re
 import guards
 import flow
 
@@ -249,6 +250,93 @@ def r7(ctx, rep):
                   "the caller's scope, so a later bare name that is not in the frame resolves to a parameter instead of being an error", file=f["file"], line=bad[0][0] if bad else f["l"], fn=f["path"])
 
 
+DROPPING = {"filter", "filter_map", "take", "skip", "take_while", "skip_while", "step_by", "dedup", "unique", "flat_map", "retain", "truncate", "pop", "drain", "remove"}
+DISCARDING = {"ok", "err", "is_ok", "is_err", "unwrap_or", "unwrap_or_default", "unwrap_or_else", "map_or", "map_or_else", "or", "or_else", "is_ok_and", "is_err_and"}
+ERR_TYPES = ("prqlc_parser::error::Error", "prqlc_parser::error::Errors", "error_message::ErrorMessages", "error_message::ErrorMessage")
+# error-discarding adapters on the compiler's own error type: reviewed sites, one reason each
+DISCARD_REVIEWED = {
+    "semantic::resolver::names::<impl semantic::resolver::Resolver<'_>>::resolve_ident:is_ok": "loop over enclosing module paths: the last attempt's Result (Ok or Err) is what the function goes on with, no error is lost",
+}
+
+
+def r8(ctx, rep):
+    rep.rule("C10.R8", "desugaring keeps every argument; lookups see direct and redirected candidates on every path; type shortcuts constrain both sides; compiler errors are not discarded", floor=8)
+    syn, cg = ctx.syn, ctx.cg
+    # (a) ast_expand: the argument lists of a call reach the resolver unfiltered
+    f = syn.fn("ast_expand::expand_expr", crate="prqlc")
+    n_lists = 0
+    for n in walk(f["body"]):
+        if n.get("k") == "struct" and last_seg(n["p"]) == "FuncCall":
+            for fname, fv in n["f"]:
+                if fname in ("args", "named_args"):
+                    n_lists += 1
+                    dropping = sorted({c["m"] for c in walk(fv) if c.get("k") == "mcall" and c["m"] in DROPPING})
+                    rep.check(not dropping, f"expand:FuncCall.{fname}", f"expand_expr builds FuncCall.{fname} through {dropping}: an argument removed here is never seen by the resolver's "
+                              "unknown-named-argument / too-many-arguments checks", file=f["file"], line=n["l"], fn=f["path"])
+    rep.check(n_lists == 2, "expand:FuncCall", f"expected FuncCall.args and FuncCall.named_args to be rebuilt in expand_expr, found {n_lists}", file=f["file"], line=f["l"], fn=f["path"])
+    # (b) Module::lookup: every return is after the loop over the redirects (direct and redirected candidates are united)
+    lk = syn.fn("Module::lookup", crate="prqlc")
+    body = lk["body"]["s"]
+    loop_i = [i for i, st in enumerate(body) if st.get("k") == "for" and "redirects" in show(st.get("iter", st.get("e", {})), maxdepth=6)]
+    if not loop_i:
+        loop_i = [i for i, st in enumerate(body) if st.get("k") == "for"]
+    early = []
+    for i, st in enumerate(body[:loop_i[0]] if loop_i else body):
+        if st.get("k") == "item_fn":
+            continue
+        for r in walk(st):
+            if r.get("k") == "return":
+                early.append(r["l"])
+            if r.get("k") in ("item_fn", "closure"):
+                pass
+    # returns inside the nested helper fn `lookup_in` are its own
+    helper_lines = set()
+    for st in body:
+        if st.get("k") == "item_fn":
+            helper_lines |= {r["l"] for r in walk(st) if r.get("k") == "return"}
+    early = [l for l in early if l not in helper_lines]
+    rep.check(bool(loop_i) and not early, "lookup:union", f"Module::lookup returns at line(s) {early} before the redirects (`this`, `that`, `_param`, `std`) were followed: a name declared directly then hides the "
+              "same name behind a redirect instead of being reported as ambiguous", file=lk["file"], line=(early or [lk["l"]])[0], fn=lk["path"])
+    rep.check(show(tail_expr(lk["body"])) == "res" and any("res.extend(" in show(x, maxdepth=6) for x in walk(body[loop_i[0]])) if loop_i else False, "lookup:accumulates",
+              "Module::lookup must accumulate the candidates of every redirect into the result", file=lk["file"], line=lk["l"], fn=lk["path"])
+    # (c) is_super_type_of*: a shortcut that accepts must look at BOTH types
+    n_short = 0
+    for name in ("is_super_type_of", "is_super_type_of_opt"):
+        g = syn.fn("resolver::types::" + name, crate="prqlc")
+        params = [p.split(":")[0].strip() for p in (show(x.get("pat", x)) if isinstance(x, dict) else str(x) for x in g.get("params", []))]
+        for n in walk(g["body"]):
+            if n.get("k") == "if" and any(r.get("k") == "return" and show(r.get("e")) == "true" for r in walk(n["t"])):
+                n_short += 1
+                c = show(n["c"], maxdepth=8)
+                missing = [p for p in params if not re.search(r"\b" + re.escape(p) + r"\b", c)]
+                rep.check(not missing, f"types:shortcut:{name}:{n_short}", f"`if {c} {{ return true }}` in {name} accepts without looking at {missing}: any value is then accepted where that type is expected "
+                          "(a relation where a scalar is required)", file=g["file"], line=n["l"], fn=g["path"])
+    rep.check(n_short >= 1, "types:shortcuts", f"expected the relation shortcut of is_super_type_of, found {n_short} accepting shortcuts")
+    # (d) error-discarding adapters on the compiler's error type (driver: resolved receiver types)
+    n_sites = 0
+    for fid, fn_ in cg.fns.items():
+        if fn_["crate"] not in ("prqlc",) or "/debug/" in fn_["file"] or "/cli/" in fn_["file"]:
+            continue
+        for r in fn_["refs"]:
+            if r["kind"] != "call" or not (r.get("id") or "").startswith("core::result::"):
+                continue
+            m = r["id"].split("::")[-1]
+            if m not in DISCARDING:
+                continue
+            recv = r.get("recv") or ""
+            if not any(e in recv for e in ERR_TYPES):
+                continue
+            n_sites += 1
+            owner = cg.owner_fn(fid)["path"]
+            key = f"discard:{owner}:{m}"
+            if f"{owner}:{m}" in DISCARD_REVIEWED:
+                rep.ok(key, {"reviewed": DISCARD_REVIEWED[f"{owner}:{m}"]})
+            else:
+                rep.bad(key, f"`.{m}()` on `{recv[:110]}` in {owner} throws the compiler's error away: a program that should be rejected (unknown column, ambiguous name) continues on a fallback path",
+                        file=r["file"], line=r["l"], fn=owner)
+    rep.check(n_sites >= 1, "discard:sites", f"expected the reviewed `.is_ok()` of resolve_ident, found {n_sites} discarding adapters on the compiler's error type")
+
+
 def run(ctx, rep):
-    for r in (r1, r2, r3, r4, r5, r6, r7):
+    for r in (r1, r2, r3, r4, r5, r6, r7, r8):
         rep.guard(r, ctx)
